@@ -220,6 +220,9 @@ def main(argv=None):
 
     t0 = time.time()
     os.environ["NUMBA_DISABLE_JIT"] = "1"
+    # second-solver cross-check of sampled unsat verdicts (symx.core.xcheck_flush): sparse on every change, denser in
+    # the thorough tier
+    os.environ.setdefault("VERIF_XCHECK_EVERY", "250" if tier == "quick" else "40")
     mod = _load(prop)
     if hasattr(mod, "main"):
         return mod.main(tier=tier, seed=seed, args=args)
@@ -358,7 +361,10 @@ def finish(prop, tier, seed, mod, obs, results, t0, args):
     print(f"{prop} tier={tier}: {len(results)} configurations, {tot.get('paths', 0)} paths, "
           f"{tot.get('proved', 0)} obligations discharged ({tot.get('unsat', 0)} unsat), "
           f"{tot.get('solver_calls', 0)} solver calls {tot.get('solver_s', 0):.1f}s, "
-          f"{validated} native replays, wall {wall:.1f}s")
+          f"{validated} native replays, wall {wall:.1f}s"
+          + (f"; cross-check of {tot['xcheck_queries']} sampled unsat verdicts: z3-4.8.12 confirms "
+             f"{tot.get('xcheck_agree_z3_4_8', 0)}, cvc5 confirms {tot.get('xcheck_agree_cvc5', 0)}, unknown "
+             f"{tot.get('xcheck_unknown', 0)}, disagree {tot.get('xcheck_disagree', 0)}" if tot.get("xcheck_queries") else ""))
     if violations:
         return 1
     if inconcl or twin_fail:
@@ -436,6 +442,17 @@ def _evidence(prop, tier, seed, mod, results, violations, known_hits, inconcl, w
             "solver_calls": tot.get("solver_calls", 0),
             "solver_s": round(tot.get("solver_s", 0.0), 2),
             "solver": "z3 " + _z3v(),
+            "solver_crosscheck": {
+                "what": "every n-th obligation answered 'unsat' by the z3 wheel (plus the first five of each worker) is "
+                        "written out as SMT-LIB2 and re-decided by the system z3 4.8.12 and cvc5 1.0.3 binaries; a 'sat' "
+                        "answer makes the run inconclusive; unknown / timeout / parse errors are counted, not trusted",
+                "every_nth": int(os.environ.get("VERIF_XCHECK_EVERY", "0") or 0),
+                "queries": tot.get("xcheck_queries", 0),
+                "unsat_confirmed_by_z3_4_8_12": tot.get("xcheck_agree_z3_4_8", 0),
+                "unsat_confirmed_by_cvc5_1_0_3": tot.get("xcheck_agree_cvc5", 0),
+                "unknown_or_unparsed": tot.get("xcheck_unknown", 0),
+                "disagreements": tot.get("xcheck_disagree", 0),
+            },
             "aborted_paths": tot.get("aborted", 0),
             "per_obligation": per_ob,
             "reachability_twins": sorted(o.name for o in mod.OBLIGATIONS if o.expect_cex),
